@@ -653,8 +653,12 @@ def run(tier):
                      'order1 in periodic domains is only checked on linear '
                      'and constant fields (ghost densities are an internal '
                      'quantity)',
-                     'target points keep the smoothing length the '
-                     'interpolator gave them'],
+                     'target points carry the largest source smoothing '
+                     'length (asserted)',
+                     'units of length between 0.01 and 2000: the Shepard '
+                     'guard "number density > 1e-12" is an absolute number, '
+                     'so for h above ~1e4 (3-d) the code returns the '
+                     'un-normalised sum; not explored, noted in DESIGN.md'],
         min_evaluations=100, min_distinct=20)
 
 
